@@ -226,7 +226,7 @@ func runC11(r *ev.Run) {
 	r.Evals.Store(texts.Load() + robust.Load() + uciCmds.Load())
 	r.Nontrivial.Store(accepted.Load() + texts.Load())
 	r.Set("distinct_outcomes", map[string]int64{"roundtrip_texts": texts.Load(), "robustness_strings": robust.Load(), "robustness_strings_accepted": accepted.Load(), "uci_position_commands": uciCmds.Load(), "played_positions_with_clock_above_100": playedOver100.Load()})
-	r.Set("rule", "(a,b) every position of the listed classes with rotating counter pairs, printed by the reference printer, parsed by FromFEN and by ParseFEN into a re-used board, compared field by field with the text and printed back; tree nodes printed by the engine and reloaded; (c) every per-colour piece-count vector reachable by promotion (one-sided complete, two-sided on the extreme set) through InvalidPieceCount and through `position fen`/`fen`; (d) all strings up to length 5 over a 12-symbol FEN alphabet, and for 12 base FENs every single-byte substitution (256 values), deletion, insertion (16 bytes), truncation, field-count variant and digit runs up to 25 in both counters, through FromFEN, ParseFEN, epd.Parse and `position fen` (board must stay unchanged when rejected); non-trivial = texts that parse")
+	r.Set("rule", "(a,b) every position of the listed classes with rotating counter pairs, printed by the reference printer, parsed by FromFEN and by ParseFEN into a re-used board, compared field by field with the text and printed back; tree nodes printed by the engine and reloaded; (c) every per-colour piece-count vector reachable by promotion (one-sided complete, two-sided on the extreme set) through InvalidPieceCount and through `position fen`/`fen`; (d) all strings up to length 5 over a 12-symbol FEN alphabet and over the 11-symbol alphabet of the tuner's records (digits, point, semicolon, blank, quote, CR, LF), base FENs with CR/LF-terminated result suffixes, and for 12 base FENs every single-byte substitution (256 values), deletion, insertion (16 bytes), truncation, field-count variant and digit runs up to 25 in both counters, through FromFEN, ParseFEN, epd.Parse and `position fen` (board must stay unchanged when rejected); non-trivial = texts that parse")
 }
 
 // c11Material enumerates piece-count vectors.
